@@ -215,6 +215,14 @@ def make_two_askers(shape: Dict[str, Any]) -> Any:
                 zc.query_handler.async_response([mk_query(t0, [Q(T1, PTR)], recs)], False)
             first_known = [VOCAB[k].ident for k in heard_keys]
         gap = ctx.int('gap', 0, 2500)
+        if shape.get('purge_between'):
+            # the periodic cache / history clean-up of the engine runs at some instant between the two askers
+            tick = ctx.int('purge_tick_offset', 0, 2500)
+            ctx.assume(tick <= gap)
+            loop.now_ms = t0 + tick
+            zc.engine._async_cache_cleanup()
+            if zc.engine._cleanup_timer is not None:
+                zc.engine._cleanup_timer.cancel()
         loop.now_ms = t0 + gap
         now = loop.now_ms
         for k in learn_between:
@@ -325,6 +333,8 @@ def obligations(tier: str) -> List[Obligation]:
         'heard-knows-the-same': {'cached': ['P1'], 'first': 'heard', 'heard_known': ['P1']},
         'heard-two-datagrams-knows-more': {'cached': ['P1'], 'first': 'heard', 'heard_known': ['P2', 'P1'], 'heard_in_two_datagrams': True},
         'heard-but-not-responder': {'cached': ['P1'], 'first': 'heard-no-service', 'heard_known': []},
+        'same-knowledge-purge-tick-between': {'cached': ['P1'], 'purge_between': True},
+        'heard-purge-tick-between': {'cached': ['P1'], 'first': 'heard', 'heard_known': ['P1'], 'purge_between': True},
     }
     if tier == 'thorough':
         ta.update({'two-cached': {'cached': ['P1', 'P2']}, 'heard-same': {'cached': ['P1', 'P2'], 'first': 'heard', 'heard_known': ['P1', 'P2']}})
